@@ -51,7 +51,7 @@ RULE = ("streams of 3-20 top-level forms mixing defreader (bodies logging at rea
         "with the same tags), each evaluated via hy.eval(hy.read-many), imported module file, or hy.REPL.runsource in chunks; "
         "fresh HyReader probes in between. Non-trivial = stream in which a definition (or require) and a use of it are in "
         "different top-level forms, in a case where another module is involved; distinct by (stream text, mode).")
-FLOOR = {"quick": 350, "thorough": 500}
+FLOOR = {"quick": 80, "thorough": 500}
 BUDGET = {"quick": 30, "thorough": 480}
 CASE_TIMEOUT = 30
 NEEDS_EVENTS = True
@@ -484,6 +484,7 @@ def run_case(case):
     import hy
     from hy.reader.exceptions import LexException
     from hy.reader.hy_reader import HyReader
+    G.reset_state((DMOD, QMOD, UMOD), path_markers=("/c37-",))
     classes = []
     res = {"ok": True, "nontrivial": False, "classes": classes, "events": 0, "n": 0, "nt_keys": []}
     env = Env()
